@@ -97,7 +97,7 @@ func drawParams(k int, r *prng.R, tier string) caseParams {
 	if p.kind == "page" {
 		p.stopAt = 0
 	}
-	if p.kind == "reset" && (k == 1 || r.Chance(1, 3)) {
+	if p.kind == "reset" && (k == 1 || k == 4 || r.Chance(1, 3)) { // case 1: refused (below the height); case 4: headers only, runs
 		// a light node (MPT in GC mode) may be reset as long as it is below MaxTraceableBlocks
 		p.local = Local{RUB: true, GCP: 10000}
 	}
